@@ -354,9 +354,15 @@ def _run_orth(spec, idx, ctx):
     p = p * 10.0 ** rng.uniform(-2, 2)
     pm = st["pm"].ProbePixelated.from_array(p.astype(np.complex64), rng=int(rng.integers(1 << 30)))
     res = []
-    for dt in (torch.complex128, torch.complex64):
-        x = torch.tensor(p).to(dt)
-        res.append(judge_orth(ctx, x, pm._probe_orthogonalization_constraint(x), where="direct"))
+    orth = getattr(pm, "_probe_orthogonalization_constraint", None)
+    if orth is None:
+        # the internal name is additional observability only; the public route below decides
+        if "ProbeConstraints._probe_orthogonalization_constraint(direct)" not in ctx.hooks_missing:
+            ctx.hooks_missing.append("ProbeConstraints._probe_orthogonalization_constraint(direct)")
+    else:
+        for dt in (torch.complex128, torch.complex64):
+            x = torch.tensor(p).to(dt)
+            res.append(judge_orth(ctx, x, orth(x), where="direct"))
     # the probe handed to the forward model (public read; raw parameters installed through the public setter)
     pm.probe = torch.tensor(p.astype(np.complex64))
     res.append(judge_orth(ctx, pm._probe.detach(), pm.probe, where="direct_public"))
